@@ -1,4 +1,6 @@
-(* C14/Run.v — correspondence cases.  One case = a history prefix, one query, and what the
+(* C14/Run.v — correspondence cases.  One case = a history prefix (writes, deletes, measurement and
+   shard drops, TSI / series-file compactions, segment roll-overs, reopen), one query (listings,
+   cardinalities, or the listing of a shard converted offline to TSI), and what the
    two real stores (inmem index, tsi1 index) answered.  [check_case] runs both models and
    the abstract set on the same prefix and compares (three-way diff):
      agree   : implementation answers = model answers
